@@ -9,6 +9,7 @@ import (
 )
 
 func init() {
+	verifHarnesses["VerifHarness_C08_unreachable"] = VerifHarness_C08_unreachable
 	verifHarnesses["VerifHarness_C08"] = VerifHarness_C08
 	verifHarnesses["VerifHarness_C09"] = VerifHarness_C09
 	verifHarnesses["VerifHarness_C10"] = VerifHarness_C10
@@ -137,6 +138,45 @@ func VerifHarness_C08() {
 	}
 }
 
+// VerifHarness_C08_unreachable: a scale-down in which the K oldest nodes cannot be reached at the API
+// server (every GET times out). The band's count of taints is still applied, to the oldest nodes
+// that can be reached: failed attempts are skipped, not counted and not a reason to stop.
+// shape: [nodes (fixed ages, n0 oldest)]
+func VerifHarness_C08_unreachable() {
+	N := verifShape(0)
+	w := newWorld(0)
+	o := groupOpts(0)
+	o.MinNodes, o.MaxNodes = 1, N+2
+	fast := verifInt("fast", 1, 3)
+	o.FastNodeRemovalRate, o.SlowNodeRemovalRate = int(fast), 0
+	g := w.addGroup(o, 0, int64(N)+2, 0)
+	// listing order is not age order: node i has age rank (2i mod N) (N odd), rank 0 = oldest
+	byRank := make([]int, N)
+	for i := 0; i < N; i++ {
+		rank := (2 * i) % N
+		byRank[rank] = i
+		w.addNode(g, tcNone, false, 0, 0, int64(100000-1000*rank), true)
+	}
+	K := int(verifInt("unreachableOldest", 0, 3))
+	w.unreachable = map[string]bool{}
+	for r := 0; r < K && r < N; r++ {
+		w.unreachable[w.nodes[byRank[r]].name] = true
+	}
+	w.build()
+	mark := len(w.J.Calls)
+	_ = w.ctrl.RunOnce()
+	j := w.summarize(g, mark)
+	want := imin(imin(fast, int64(N)-1), int64(N-K))
+	verifAssert("C08.count-with-unreachable-nodes", int64(j.taintAdds) == want)
+	_, tainted := w.writeAttempts(mark, "NodeTaint")
+	for r := 0; r < N; r++ {
+		verifAssert("C08.oldest-reachable-first", tainted[byRank[r]] == (r >= K && int64(r) < int64(K)+want))
+	}
+	if K >= 2 {
+		verifReach("C08.two-oldest-unreachable")
+	}
+}
+
 // VerifHarness_C09: cordoned nodes are never touched and never counted.
 // shape: [nodes, pods, class menu, prior scan (0/1), max_node_age rotation with symbolic node ages (0/1)]
 func VerifHarness_C09() {
@@ -161,13 +201,23 @@ func VerifHarness_C09() {
 		w.priorScan(g) // e.g. the node was cordoned after an earlier scan had seen it schedulable
 	}
 	s := w.snap(g)
+	race := verifShape(5) == 1
+	if race && len(w.nodes) > 0 {
+		w.raceCordon = w.nodes[0].name // an operator cordons the oldest node just after escalator fetched it
+	}
 	verifFreezeClock(w.base+1, 0)
 	mark := len(w.J.Calls)
 	_ = w.ctrl.RunOnce()
 	verifUnfreezeClock()
 	j := w.summarize(g, mark)
+	if race && w.raceDone {
+		verifReach("C09.write-raced-with-a-cordon")
+	}
 	for k := mark; k < len(w.J.Calls); k++ {
 		e := w.J.Calls[k]
+		if race && !e.OK {
+			continue // the write refused because of the race was built on a view in which the node was schedulable
+		}
 		var n *vNode
 		switch e.Kind {
 		case "NodeTaint", "NodeUntaint", "NodeUpdate", "NodeDelete":
@@ -197,6 +247,9 @@ func VerifHarness_C09() {
 	lo, su := int64(o.TaintLowerCapacityThresholdPercent), int64(o.ScaleUpThresholdPercent)
 	fastBand := verifAnd(normal, verifAnd(clearlyBelow(c, lo*s.cpuCap), clearlyBelow(m, lo*s.memCap)))
 	upBand := verifAnd(normal, clearlyAbove(c, su*s.cpuCap))
+	if race {
+		return // (the refused write makes the attempt counts of the band oracles differ)
+	}
 	verifAssert("C09.capacity-excludes-cordoned(low)", verifImplies(fastBand, int64(j.taintAttempts) == imin(2, s.untainted-minEff)))
 	verifAssert("C09.capacity-excludes-cordoned(high)", verifImplies(upBand, verifAnd(j.taintAttempts == 0, j.untaintAttempts+j.increaseAttempts >= 1)))
 	verifReachIf("C09.cordoned-changes-band", verifAnd(upBand, s.cordoned > 0))
